@@ -272,15 +272,22 @@ impl<'l, Data> LoopHandle<'l, Data> {
         {
             if let Some(source) = source.take() {
                 trace!(source = entry_token.get_id(), "Removing source");
-                if let Err(e) = source.unregister(
+                let res = source.unregister(
                     &mut self.inner.poll.borrow_mut(),
                     &mut self
                         .inner
                         .sources_with_additional_lifecycle_events
                         .borrow_mut(),
                     token,
-                ) {
+                );
+                if let Err(e) = res {
                     warn!("Failed to unregister source from the polling system: {e:?}");
+                    // The source is gone whatever its unregistration said: it must not be asked
+                    // for lifecycle events any more.
+                    self.inner
+                        .sources_with_additional_lifecycle_events
+                        .borrow_mut()
+                        .unregister(token);
                 }
             }
         }
@@ -592,7 +599,7 @@ impl<'l, Data> EventLoop<'l, Data> {
                 {
                     // the source has been removed from within its callback, unregister it
                     let mut poll = self.handle.inner.poll.borrow_mut();
-                    if let Err(e) = disp.unregister(
+                    let res = disp.unregister(
                         &mut poll,
                         &mut self
                             .handle
@@ -600,8 +607,16 @@ impl<'l, Data> EventLoop<'l, Data> {
                             .sources_with_additional_lifecycle_events
                             .borrow_mut(),
                         RegistrationToken::new(reg_token),
-                    ) {
+                    );
+                    if let Err(e) = res {
                         warn!("Failed to unregister source from the polling system: {e:?}",);
+                        // The source is gone whatever its unregistration said: it must not be
+                        // asked for lifecycle events any more.
+                        self.handle
+                            .inner
+                            .sources_with_additional_lifecycle_events
+                            .borrow_mut()
+                            .unregister(RegistrationToken::new(reg_token));
                     }
                 }
             } else {
